@@ -359,6 +359,12 @@ def run(ctx):
             if ctx.quick:
                 triples = [t for t in triples if sum(1 for m in t if m[1] > 1000) <= 1][::2]
             allseq = singles + pairs + triples
+            if cfg["compress"]:
+                # per-message override mixed with the negotiated (shared-context) compression: the override
+                # message sits between two messages of the shared context
+                mixed = [(k, s_, o) for k in ("text",) for s_ in ((1, 126, 16385) if ctx.quick else (1, 126, 16383, 16385))
+                         for o in (None, 15, 9) if not (o and o > cfg["compress"])]
+                allseq += [t for t in itertools.product(mixed, repeat=3) if any(m[2] for m in t) and not all(m[2] for m in t)]
             for i in range(0, len(allseq), 120):
                 jobs.append(("seq", cfg, allseq[i:i + 120]))
     bound = 2 if ctx.quick else 3
